@@ -94,7 +94,7 @@ def render(fn, n, depth=0):
         return r(n.get('fn')) + '(' + ', '.join(r(a) for a in args) + ')'
     if k == 'construct':
         args = n.get('args', [])
-        if n.get('ck') in ('copy', 'move') and len(args) == 1:
+        if _transparent_construct(n):
             return r(args[0])
         return strip_targs(n.get('cls', '?')).split('::')[-1] + '{' + ', '.join(r(a) for a in args) + '}'
     if k == 'bin':
@@ -132,8 +132,21 @@ def render(fn, n, depth=0):
     return '<' + k + '>'
 
 
+import re as _re
+_ITER_CLS = _re.compile(r'(^|::)_*[A-Za-z_]*iterator$')
+
+
+def _transparent_construct(n):
+    if n['k'] != 'construct' or len(n.get('args', [])) != 1:
+        return False
+    if n.get('ck') in ('copy', 'move'):
+        return True
+    # iterator -> const_iterator conversions
+    return bool(_ITER_CLS.search(strip_targs(n.get('cls', ''))))
+
+
 def strip_casts(n):
-    while is_node(n) and (n['k'] == 'cast' or n['k'] == 'defarg' or (n['k'] == 'construct' and n.get('ck') in ('copy', 'move') and len(n.get('args', [])) == 1)
+    while is_node(n) and (n['k'] == 'cast' or n['k'] == 'defarg' or _transparent_construct(n)
                           or (n['k'] == 'call' and n.get('conv'))):
         if n['k'] == 'construct':
             n = n['args'][0]
@@ -365,6 +378,8 @@ def writers_of_field(fx, field):
     same function is instantiated)."""
     out = {}
     for fn in fx.repo_functions():
+        if fn.d.get('defaulted'):
+            continue  # implicitly-defined memberwise copy/move: not a writer in the rules' sense
         for a in field_accesses(fn, {field}):
             if a.is_write:
                 out.setdefault(top_function(fx, fn).norm, []).append(a)
@@ -522,3 +537,58 @@ def reassigned_between(fn, dids, guard_block, use_node):
             if cfg.dominates(guard_block, sb) and sb != guard_block and before_use:
                 return site
     return None
+
+
+# ---------------------------------------------------------------------------
+# path rules (R4)
+def precedes(fn, a, b):
+    """a is evaluated on every path from entry to b."""
+    cfg = fn.cfg
+    pa, pb = cfg.node_pos(a), cfg.node_pos(b)
+    if pa is None or pb is None:
+        return False
+    if pa[0] == pb[0]:
+        return pa[1] <= pb[1]
+    return cfg.dominates(pa[0], pb[0])
+
+
+def any_precedes(fn, As, b):
+    return any(precedes(fn, a, b) for a in As)
+
+
+def must_follow(fn, a, Bs, stop_at_noreturn=True):
+    """Every path from a to the normal exit passes through one of Bs."""
+    cfg = fn.cfg
+    pa = cfg.node_pos(a)
+    if pa is None:
+        return False
+    pbs = [cfg.node_pos(b) for b in Bs]
+    pbs = [p for p in pbs if p is not None]
+    for p in pbs:
+        if p[0] == pa[0] and p[1] >= pa[1]:
+            return True
+    avoid = {p[0] for p in pbs}
+    if pa[0] == cfg.exit:
+        return False
+    # blocks ending in a throw / noreturn never reach the normal exit
+    reach = cfg.reach_from(pa[0], avoid=avoid)
+    return cfg.exit not in reach
+
+
+def on_all_paths(fn, Bs):
+    """Every entry->exit path passes through one of Bs."""
+    cfg = fn.cfg
+    avoid = {cfg.node_block(b) for b in Bs} - {None}
+    if cfg.entry in avoid:
+        return True
+    reach = cfg.reach_from(cfg.entry, avoid=avoid) | {cfg.entry}
+    return cfg.exit not in reach
+
+
+def returns(fn):
+    return [n for n in fn.all_nodes() if n['k'] == 'return']
+
+
+def is_this(n):
+    n = strip_casts(n)
+    return is_node(n) and n['k'] == 'this'
